@@ -72,7 +72,7 @@ type sub struct {
 	chunk int // chunk size used in the final phase
 }
 
-var chunkSizes = []int{1, 2, 3, 7, 1000}
+var chunkSizes = []int{1, 2, 3, 7, 100, 1000}
 
 // world is one run of a history.
 type world struct {
@@ -163,8 +163,8 @@ func (w *world) spawn(ev Ev) {
 		w.subs[ev.Sub] = &sub{idx: types.ChainIndex{Height: n.Height, ID: n.ID}, bogus: true}
 		w.stats["subscribers-unreached-index"]++
 	default:
-		if ev.At >= len(w.t.Nodes) || !w.everBest[ev.At] || !w.prev.Known[ev.At].Supp {
-			return // not an index a subscriber can have reached and the store still holds
+		if ev.At >= len(w.t.Nodes) || !w.everBest[ev.At] || !w.prev.Known[ev.At].Body {
+			return // not an index a subscriber can have reached and the store still holds (unpruned)
 		}
 		n := w.t.Nodes[ev.At]
 		w.subs[ev.Sub] = &sub{idx: types.ChainIndex{Height: n.Height, ID: n.ID}, l: w.tw.At(n).Clone()}
@@ -261,20 +261,27 @@ func (w *world) poll(id int, max int) {
 	if max < want {
 		want = max
 	}
-	// an error is legitimate only if a body/supplement on the requested stretch is gone (PruneBlocks)
+	// an error is legitimate only if a body on the requested stretch was pruned (PruneBlocks removes
+	// body and supplement together). Every block of the stretch was applied at some point, so a body
+	// without supplement (or with a header-derived state) means the store lost what it held.
 	expectErr := false
+	lost := -1
 	for i, x := range append(append([]int(nil), revs...), apps...) {
 		if i >= want {
 			break
 		}
-		if !w.prev.Known[x].Body || !w.prev.Known[x].Supp {
+		if !w.prev.Known[x].Body {
 			expectErr = true
+		} else if !w.prev.Known[x].Supp && lost < 0 {
+			lost = x
 		}
 	}
 	if err != nil {
 		w.stats["polls-error"]++
 		w.coq = append(w.coq, fmt.Sprintf("EPoll %s %d None", w.coqIdx(before, 0), max))
-		if !expectErr {
+		if lost >= 0 && !expectErr {
+			w.report("c04-held-index-lost", "UpdatesSince(%v [block %d], %d) failed (%v): block %d on the subscriber's path (reverts %v, applies %v) was applied earlier and never pruned, its body is still stored, but its supplement is gone (a later submission re-stored it)", sb.idx, w.nodeOf(sb.idx), max, err, lost, revs, apps)
+		} else if !expectErr {
 			w.report("c04-error-for-reached-index", "UpdatesSince(%v [block %d], %d) failed (%v) although every block on the requested stretch (reverts %v, applies %v) is held with its supplement", sb.idx, w.nodeOf(sb.idx), max, err, revs, apps)
 		}
 		return
@@ -324,7 +331,17 @@ func (w *world) poll(id int, max int) {
 			}
 		}
 	}
-	subs.Fold(sb.l, rus, aus)
+	func() {
+		defer func() {
+			if r := recover(); r != nil {
+				w.report("c04-panic", "folding the chunk %v -> %v (max %d, reverts %v, applies %v) into the shadow ledger panicked in the update's own UpdateElementProof/diffs: %v", before, after, max, rids, aids, r)
+			}
+		}()
+		subs.Fold(sb.l, rus, aus)
+	}()
+	if w.fail != nil {
+		return
+	}
 	sb.idx = after
 	// the shadow ledger equals the linear twin's ledger at the index reached (elements, leaf
 	// indices, byte-equal Merkle proofs)
@@ -339,6 +356,11 @@ func (w *world) poll(id int, max int) {
 			w.stats["proof-verifications"]++
 		}
 		cmp := subs.Compare
+		if cs, ok := w.s.Store.State(n.ID); ok && cs.Elements.NumLeaves != n.FullState.Elements.NumLeaves {
+			// (a full state that merely orders expirations differently has the same number of leaves)
+			w.report("c04-held-index-lost", "after the chunk %v -> %v the subscriber stands on block %d, which was applied earlier, but the store now holds only a header-derived state for it (a later submission re-stored it)", before, after, n.Idx)
+			return
+		}
 		if w.prev.Known[n.Idx].State != 2 {
 			// the node's own state at this block is not the linear replay's (expiring-contract order
 			// after a reverted revision: C02's finding): leaf positions are not comparable
@@ -374,7 +396,7 @@ func (w *world) nodeOf(ci types.ChainIndex) int {
 func (w *world) finish(r *rng.R) {
 	next := 10000
 	for i, k := range w.prev.Known {
-		if w.everBest[i] && k.Supp {
+		if w.everBest[i] && k.Body {
 			w.spawn(Ev{K: "spawn", Sub: next, At: i})
 			if sb := w.subs[next]; sb != nil {
 				sb.chunk = chunkSizes[r.Intn(len(chunkSizes))]
@@ -482,9 +504,45 @@ func genCase(r *rng.R, regime int, prunes bool) Case {
 	live = append(live, 0)
 	for i := range plan {
 		op := plan[i]
+		bestBefore := append([]int(nil), w.prev.Best...)
 		add(Ev{K: "op", Op: &op})
 		if w.fail != nil {
 			break
+		}
+		// a reorg left a stale branch behind: a subscriber is parked on it, then blocks of the stale
+		// branch that were applied before (the whole branch, or only the first one above the fork
+		// point) are submitted again — a peer still on the losing branch relays them — and the
+		// subscriber polls with small and large chunks
+		var stale []int // tip first
+		for _, x := range bestBefore {
+			if !contains(w.prev.Best, x) {
+				stale = append(stale, x)
+			}
+		}
+		if len(stale) > 0 && op.Kind != "prune" && r.Chance(1, 2) {
+			parked := nsub
+			add(Ev{K: "spawn", Sub: parked, At: stale[r.Intn(len(stale))]})
+			live = append(live, parked)
+			nsub++
+			var nodes []int
+			switch r.Intn(3) {
+			case 0: // only the first block above the fork point
+				nodes = []int{stale[len(stale)-1]}
+			case 1: // only the old tip
+				nodes = []int{stale[0]}
+			default: // the whole branch, in order
+				for j := len(stale) - 1; j >= 0; j-- {
+					nodes = append(nodes, stale[j])
+				}
+			}
+			re := mgrsim.Op{Kind: "add", Nodes: nodes}
+			add(Ev{K: "op", Op: &re})
+			for k := 1 + r.Intn(3); k > 0 && w.fail == nil; k-- {
+				add(Ev{K: "poll", Sub: parked, Max: []int{1, 2, 100}[r.Intn(3)]})
+			}
+			if w.fail != nil {
+				break
+			}
 		}
 		// polls of existing subscribers
 		for k := r.Intn(3); k > 0; k-- {
@@ -494,7 +552,7 @@ func genCase(r *rng.R, regime int, prunes bool) Case {
 		case 0, 1: // a subscriber at an index the store still holds (often on a stale branch)
 			var cands, stale []int
 			for x, k := range w.prev.Known {
-				if w.everBest[x] && k.Supp {
+				if w.everBest[x] && k.Body {
 					cands = append(cands, x)
 					if !contains(w.prev.Best, x) {
 						stale = append(stale, x)
@@ -644,6 +702,11 @@ func concurrent(c *hx.Ctx, cs Case) *failure {
 		seed := cs.Seed + uint64(p)
 		go func() {
 			defer wg.Done()
+			defer func() {
+				if r := recover(); r != nil {
+					report("c04-panic-concurrent", "a poller racing the submissions panicked: %v", r)
+				}
+			}()
 			r := rng.New(seed)
 			idx := types.ChainIndex{}
 			l := chaingen.NewLedger()
@@ -767,7 +830,11 @@ func run(c *hx.Ctx) {
 		for regime := 0; regime < 3; regime++ {
 			if f := preflight(regime); f != nil {
 				res.Fail(f.kind, f.detail, map[string]any{"preflight": true, "regime": regime})
-				bad = true
+				if f.kind != "c04-held-index-lost" { // (that one does not affect the generator's own builder)
+					bad = true
+				}
+				res.Count("preflight-histories")
+				break // one directed replay is enough; the generated histories supply the others
 			}
 			res.Count("preflight-histories")
 		}
